@@ -5,7 +5,9 @@ from . import rules_encode as E
 from . import rules_svg as S
 from . import rules_image as I
 from . import rules_wasm as Wm
+from . import rules_wasm_pe as Wp
 from . import rules_purity as P
+from . import rules_purity_pe as Pp
 from . import rules_term as Tm
 from . import witness, fixture
 from .core import soft_if
@@ -312,7 +314,8 @@ def C14(ctx):
         P.p3_types(ctx, f)
         P.p4_signatures(ctx, f)
         P.p5_ambient(ctx, f)
-        P.p6_setters(ctx, f)
+        d_alg = Pp.c14_p7(ctx, f)
+        P.p6_setters(soft_if(ctx, d_alg, "C14.P7"), f)
     P.build_does_not_mutate(ctx, ctx.facts("default"))
     I.c13_r1(ctx, ctx.facts("image"))
     witness.rule(ctx, "C14.W", "Send+Sync for the four public types; build and renderers through shared references; setters chain on &mut",
@@ -322,7 +325,9 @@ def C14(ctx):
         explanation="If the crate has no mutable/interior-mutable/thread-local static (P1), no user-written unsafe (P2), no "
                     "state-bearing type that can hide shared mutable state (P3, type graph through fields and generic arguments), "
                     "entry points that borrow builder and symbol immutably (P4), no ambient-state callee reachable from them (P5), "
-                    "and setters that each write exactly their own field from their argument (P6), then safe Rust guarantees that "
+                    "and setters that obey `last value wins` and commute pairwise (P7: the setter bodies are evaluated on the "
+                    "builders' initial values, two distinct values per parameter, list-appenders excepted; P6: each writes exactly "
+                    "its own field from its argument), then safe Rust guarantees that "
                     "build and the renderers are functions of their argument values on any thread and in any order. Each premise "
                     "is an enumerable fact over three feature configurations; zero-count rules are confirmed to fire on a positive "
                     "fixture crate on every run.",
@@ -371,19 +376,24 @@ def C16(ctx):
 def C17(ctx):
     fixture.selfcheck(ctx)
     f = ctx.facts("wasm")
+    d_opts = Wp.c17_r6(ctx, f)
+    d_mat = Wp.c17_r7(ctx, f)
     Wm.c17_r1(ctx, f)
     Wm.c17_r2(ctx, f)
     Wm.c17_r3(ctx, f)
-    Wm.c17_r4(ctx, f)
-    Wm.c17_r5(ctx, f)
+    Wm.c17_r4(soft_if(ctx, d_opts and d_mat, "C17.R6/R7"), f)
+    Wm.c17_r5(soft_if(ctx, d_mat, "C17.R7"), f)
     return dict(
         level="other",
         explanation="The wasm layer is analysed as host-compiled MIR under --cfg fast_qr_verif (no wasm32 target installed; without the "
-                    "wasm-bindgen feature the file has no wasm-only code). No unwrap/expect/panic call in any of its functions or "
-                    "closures; every constant Vec index is dominated by a length test of that same vector; option fields always "
-                    "hold values of the length the native conversions need; entry points build with QRCode::new and forward each "
-                    "option to the like-named native setter exactly once; failure maps to the empty value; the matrix export is "
-                    "data[..size*size] mapped through u8::from(value()). Shared with the native path: C10, C12.",
+                    "wasm-bindgen feature the file has no wasm-only code). By partial evaluation (C17.R6): for 97 setter programs "
+                    "(well-formed, malformed and partial option values) x 3 contents x (encodable, not encodable), no setter and no "
+                    "entry point panics, QRCode::new receives content.as_bytes() with the level/version set, the builder handed to the "
+                    "native to_str equals the native builder given the same well-formed settings (unset options keep the native "
+                    "defaults), failure gives the empty string; (C17.R7) qr() returns size*size bytes, byte r*size+c the 0/1 value of "
+                    "module (r, c), for every module content. For all inputs: no unwrap/expect/panic call in any wasm function or "
+                    "closure; every constant Vec index is dominated by a length test of that same vector; option fields always hold "
+                    "values of the length the native conversions need. Shared with the native path: C10, C12.",
         assumptions=["wasm-bindgen glue (attribute macros, not compiled here) adds no trap", "margin*2+n does not overflow usize"],
     )
 
